@@ -88,6 +88,7 @@ type Point struct {
 	NRun    int // for PThread: leading alternatives that belong to the running thread (0: it is blocked); choosing alt >= NRun > 0 is a preemption
 	Preempt int // cumulative preemptions before this point
 	EnvDev  int // cumulative environment deviations before this point
+	Delays  int // cumulative non-default thread choices before this point
 	Label   string
 }
 
@@ -124,13 +125,15 @@ type S struct {
 	prefix   []int
 	Points   []Point
 	preempt  int
+	delays   int
 	envDev   int
 	Trace    []string // when Tracing
 	Tracing  bool
 	MaxSteps int
 
-	clock int64
-	wg    sync.WaitGroup
+	clock    int64
+	watchdog *time.Timer
+	wg       sync.WaitGroup
 
 	Blocked []BlockedInfo // threads still pending when the execution ended
 	Data    interface{}   // harness payload
@@ -545,12 +548,15 @@ func (s *S) choose(kind PointKind, n int, nrun int, label string) int {
 			os.Exit(2)
 		}
 	}
-	p := Point{Kind: kind, N: n, Chosen: c, NRun: nrun, Preempt: s.preempt, EnvDev: s.envDev}
+	p := Point{Kind: kind, N: n, Chosen: c, NRun: nrun, Preempt: s.preempt, EnvDev: s.envDev, Delays: s.delays}
 	if s.Tracing {
 		p.Label = label
 	}
 	s.Points = append(s.Points, p)
 	if c > 0 {
+		if kind == PThread {
+			s.delays++
+		}
 		if kind == PThread && nrun > 0 && c >= nrun {
 			s.preempt++
 		}
@@ -614,7 +620,18 @@ func (o op) describe() string {
 func (s *S) waitIdle() {
 	select {
 	case <-s.idle:
-	case <-time.After(120 * time.Second):
+		return
+	default:
+	}
+	if s.watchdog == nil {
+		s.watchdog = time.NewTimer(120 * time.Second)
+	} else {
+		s.watchdog.Reset(120 * time.Second)
+	}
+	select {
+	case <-s.idle:
+		s.watchdog.Stop()
+	case <-s.watchdog.C:
 		buf := make([]byte, 1<<20)
 		n := runtime.Stack(buf, true)
 		fmt.Fprintf(os.Stderr, "HARNESS-ERROR: a thread blocked outside the scheduler's hooks for 120s\n%s\n", buf[:n])
@@ -784,3 +801,7 @@ func callerName(skip int) string {
 	}
 	return closureRe.ReplaceAllString(fn, "")
 }
+
+// IsAbort reports whether a recovered value is the scheduler's unwinding
+// sentinel; harness code that recovers must re-panic it.
+func IsAbort(r interface{}) bool { _, ok := r.(abortT); return ok }
